@@ -316,7 +316,8 @@ impl Run {
             cases: cases as u32,
             failure_persistence: None,
             max_shrink_iters: 4000,
-            max_shrink_time: 0,
+            // bound the time spent minimising a failure (expensive oracles run processes)
+            max_shrink_time: if self.tier == Tier::Quick { 30_000 } else { 300_000 },
             max_global_rejects: 65536,
             verbose: 0,
             ..Config::default()
